@@ -57,6 +57,12 @@ CLAIMS = {
          "(2) size gate - validateMessageSize rejects exactly target > max (max != 0) and encoding.Transport.Read hands a frame to the decoder only if it passed the gate (ghost variable bound to the frame length); "
          "(3) decoder output invariant - for every wire input toDataIDOrAlias/toUpstreamOrAlias/toDataPointGroup(s)/toStreamChunk return either an error or values whose id-or-alias positions hold one of the two known dynamic types, no nil group, no nil chunk (the precondition of C03's resolver), and the enum decoders accept exactly the declared constants (so a negative enum number cannot decode to a value that no longer encodes).",
          "NOT decided (and natively a fuzzing property): arbitrary bytes through the generated protobuf unmarshaller and jsonpb (third-party; only known to sit under the recover guard), absence of hangs, the re-encode round trip of whole messages, the goroutine-level recover of the datagram readers.", "6/C12"),
+ 'C01': ("Contract proof of the chunk-cutting kernel of an upstream (monitor invariant of Upstream.mu; unbounded in the number of data ids, groups and points): flush cuts nothing from an empty buffer (no store, no send, no sequence number) and otherwise exactly one chunk from the whole buffer - numbered old+1, stored once under (stream id, number), handed to exactly one sender goroutine whose result channel is registered under that number - leaving buffer and counters empty and the running total increased by the buffered point count; "
+         "toUpstreamChunk emits one group per buffered data id, each group being exactly that id's buffered points; toUpstreamDataPointGroups copies every group's points element by element in order and labels it with the id's alias iff it has one; WriteDataPoints reports success exactly when the points were handed to the flush loop.",
+         "NOT decided (scheduler / channel-order facts): that every accepted write reaches the flush loop, that each cut chunk is transmitted exactly once and before the close request, ack-hook exactly-once, the close request's totals (closeWithError is only a TRUSTED frame contract), buffer slices never aliasing a caller's slice (seed C01-1 is not detected). 64-bit totals mathematical (A5).", "6/C01"),
+ 'C20': ("Contract proof of the flush policies and of where chunks are cut: IsFlush of the five policies (none/interval: never; immediate: always; size and interval-or-size: size > threshold); in flushLoop the write arm appends under the lock, asks the policy with the buffered payload size (as uint32) and calls flush in that iteration iff the policy said so, the other arms may always flush, flush is never called under the lock; "
+         "flush cuts everything buffered or nothing (shared with C01); a state snapshot reports the current totals and exactly one group per buffered data id with that id's point count (nothing invented); WriteDataPoints never returns an error for points it handed over.",
+         "NOT decided: that Flush is a barrier for points written by other goroutines (rendezvous order), the interval bound (timing), silence of the none/size/immediate tickers. Buffered payload < 2^32 bytes (A5).", "6/C20"),
 }
 NA_REASON_DEFAULT = "check not built yet (framework under construction; see DESIGN.md section 8)"
 NA = {}
